@@ -115,7 +115,9 @@ def r2(R, repo):
       R.ok(key, f)
   fs = repo.func(SC, '_fold_in_static')
   h = [x for x in astu.func_calls(fs) if (astu.call_name(x) or '').startswith('hashlib.')]
-  R.judge(bool(h) or not [x for x in astu.func_calls(fs) if astu.call_tail(x) in ('digest', 'hexdigest')], len(h) == 1, key_of(fs, 'digest from hashlib'), fs, '_fold_in_static must hash with hashlib (a process-independent digest)')
+  h_deep = evid.calls_deep(repo, fs, lambda y: (astu.call_name(y) or '').startswith('hashlib.'))
+  builtin = [x for x in astu.func_calls(fs) if astu.call_name(x) == 'hash'] + [y for _g, y in evid.calls_deep(repo, fs, lambda y: astu.call_name(y) == 'hash')]
+  R.judge(bool(h) or bool(h_deep) or bool(builtin), (len(h) == 1 or bool(h_deep)) and not builtin, key_of(fs, 'digest from hashlib'), fs, '_fold_in_static must hash with hashlib (a process-independent digest)')
 
 
 @rule('C09.R3', 'K1', 4, '_fold_in_static feeds every path element into the digest, separated when the separator fix is enabled')
